@@ -280,7 +280,7 @@ package object
 //@ func createTypeConverter
 //@ props C09
 //@ requires[C09.lock] ghost("lock.w", bool, goTypeMutex)
-//@ modcomps H_ E_ M G_object_typeConverters G_object_goTypeRegistry
+//@ modcomps H_ E_ M G_object_typeConverters G_object_goTypeRegistry -MD_string_any -MV_string_any -MD_string_object_Object -MV_string_object_Object
 //@ assumeframe
 //@ ghostensures err == nil ==> result0 != nil && ref(result0) != nil && uf("conv.for", bool, result0, typ)
 //@ ensures[C08.create.err] err != nil ==> result0 == nil
@@ -316,7 +316,7 @@ package object
 //@ func newStructConverter
 //@ props C09
 //@ requires[C09.lock] ghost("lock.w", bool, goTypeMutex)
-//@ modcomps H_ E_ M G_object_typeConverters G_object_goTypeRegistry
+//@ modcomps H_ E_ M G_object_typeConverters G_object_goTypeRegistry -MD_string_any -MV_string_any -MD_string_object_Object -MV_string_object_Object
 //@ assumeframe
 //@ ensures[C08.newstruct.ok] err == nil ==> result0 != nil && fresh(result0)
 //@ ensures[C08.newstruct.err] err != nil ==> result0 == nil
@@ -443,3 +443,16 @@ package object
 //@ external reflect.(Type).In
 //@ modifies nothing
 //@ ensures result != nil
+
+// AsObjects (every Go global of a VM): a value that already is a script object is passed through, a nil value is
+// Nil (KF-49 fixed: it reached reflect with a nil type), and EVERY other value is converted by exactly the converter
+// the dispatcher builds for its dynamic type - there is no second conversion path that could skip the per-type
+// range checks. On failure nothing is returned.
+//@ spec viaconv(v, r) = existsT(c, TypeConverter, uf("conv.for", bool, c, uf("go.typeof", reflect.Type, v)) && r == uf("conv.from", Object, c, v) && uf("conv.from.ok", bool, c, v))
+//@ spec asobj(v, r) = ite(v == nil, r == Nil, ite(implements(v, Object), r == v.(Object), viaconv(v, r)))
+//@ func AsObjects
+//@ props C08
+//@ requires[C09.unlocked] !ghost("lock.w", bool, goTypeMutex) && !ghost("lock.r", bool, goTypeMutex) && goTypeMutex != nil
+//@ invariant 1: fresh(result) && !ghost("lock.w", bool, goTypeMutex) && !ghost("lock.r", bool, goTypeMutex) && forallU(k, string, seen(k) ==> haskey(result, k) && asobj(m[k], result[k]))
+//@ ensures[C08.globals.via] err == nil ==> forallU(k, string, haskey(m, k) ==> haskey(result0, k) && asobj(m[k], result0[k]))
+//@ ensures[C08.globals.err] err != nil ==> result0 == nil
